@@ -58,6 +58,8 @@ def hooktype_consts(body, op):
 
 def check(ctx):
     prog = ctx.prog
+    from . import c05 as _c05
+    ctx.shared("C05", _c05.cleanup)       # clean hooks: once per validated challenge, with that challenge's data
     W1 = ctx.rule("W1", "template variables: the hook data structs are serialised under the member names acmed.toml(5) documents, none conditional")
     from .wire_shape import check_shapes
     check_shapes(ctx, W1, ["acmed::hooks::PostOperationHookData", "acmed::hooks::ChallengeHookData", "acmed::hooks::FileStorageHookData", "acmed::storage::CertFileFormat"])
@@ -106,6 +108,7 @@ def check(ctx):
 
     R2 = ctx.rule("R2", "call_single fails iff the exit status is unsuccessful and allow_failure is not set; the child is awaited")
     status_rule(ctx, R2)
+    child_io_rules(ctx, R2)
     # every challenge type is paired with ITS OWN clean type (evaluated from call_challenge_hooks per challenge; shared with C05.R3)
     from .c05 import challenge_hook_table, HOOK_TABLE as _HTAB
     tab_ = challenge_hook_table(prog)
@@ -466,6 +469,30 @@ def short(k):
     if " as " in k:
         return k.split(" as ")[0].lstrip("<").rsplit("::", 1)[-1] + "::" + k.rsplit("::", 1)[-1]
     return "::".join(k.split("::")[-2:])
+
+
+def child_io_rules(ctx, rid):
+    """call_single: (a) the child's stdin pipe stays inside the Child until it is awaited (Child::status/wait close it first; a ChildStdin
+    taken out into a local that is still alive across the wait leaves the pipe open: a hook that reads to EOF never exits and the attempt
+    never ends); (b) the stdin FILE that is opened is the RENDERED template, not the template text"""
+    prog = ctx.prog
+    b = prog.async_body(SINGLE)
+    CH = "tokio::process::Child"
+    waits = [c for c in b.calls if c.fn == POLL and c.res and any(k in c.res for k in ("Child::status", "Child::wait", "Child::wait_with_output")) and c.bb in b.live_blocks()]
+    ctx.floor(rid, "awaited Child::status / wait in call_single", len(waits), 1)
+    takes = [c for c in b.calls if c.bb in b.live_blocks() and (c.name or "").rsplit("::", 1)[-1] in ("take", "replace", "take_if") and c.args and any(a_.endswith("::Child") and f_ == "stdin" for a_, f_ in arg_origins(c, 0).fields)]
+    for c in takes:
+        l = c.dest["l"] if c.dest is not None else None
+        drops = [i for i in b.live_blocks() if b.term(i)["t"] == "drop" and b.term(i)["place"]["l"] == l and not b.term(i)["place"]["p"]]
+        moved = [x.bb for x in b.calls if x.bb in b.live_blocks() and any(op_local(a) == l and "move" in a for a in x.args if isinstance(a, dict))]
+        ok_, hit = unreachable_without(b, [w.bb for w in waits], removed_nodes=drops + moved, start=c.bb)
+        ctx.require(rid, ok_, c.where(), "the child's stdin taken out of the Child is closed (dropped) before the child is awaited — otherwise a hook reading to EOF never exits",
+                    [SINGLE, "stdin-open-across-wait"])
+    opens = [c for c in b.calls if c.bb in b.live_blocks() and (c.name or "") in ("std::fs::File::open", "tokio::fs::file::File::open")]
+    for c in opens:
+        sl = arg_origins(c, 0, through=True)
+        ctx.require(rid, any(x.is_("acmed::template::render_template") for x in sl.calls) or sl.via_any("acmed::template::render_template"), c.where(),
+                    "the stdin file opened is the rendered template of hook.stdin", [SINGLE, "stdin-file-unrendered"])
 
 
 def status_rule(ctx, R2):
